@@ -64,6 +64,7 @@ class Emit:
         s.tr = tr
         s.out = []
         s.report = []        # (function, status, detail)
+        s.in_progress = set()
 
     def param_binder(s, f, p, ty):
         nm = p["name"]
@@ -80,6 +81,26 @@ class Emit:
             fn = s.tr.find(file, rust_name, trait, self_like)
             if fn["async"] != bool(cfg.get("async")):
                 raise Unsupported("async-ness differs from what the model assumes")
+            if cfg.get("auto_helpers", True) and cfg.get("struct") is not None and not cfg.get("pure") and "helper" not in cfg:
+                cfg = dict(cfg)
+                def helper(fnobj, m, _file=file, _self_like=self_like, _cfg=cfg):
+                    """translate self.<m>() on demand: a non-async inherent method of the same type in the same file"""
+                    if m in s.in_progress:
+                        raise Unsupported("recursive method " + m)
+                    try:
+                        s.tr.find(_file, m, None, _self_like)
+                    except Unsupported:
+                        return None
+                    s.in_progress.add(m)
+                    try:
+                        sub = {k_: v for k_, v in _cfg.items() if k_ not in ("param_types", "ret_repr", "generic_R", "helper")}
+                        rt = s.translate_fn(_file, m, "h_" + m, sub, None, _self_like)
+                    finally:
+                        s.in_progress.discard(m)
+                    if rt is None:
+                        raise Unsupported("helper method %s could not be translated" % m)
+                    return Sig("h_" + m, rt, world=("world" if _cfg.get("lifted") else "self"), hint="r")
+                cfg["helper"] = helper
             f = Fn(s.tr, fn, cfg)
             generics = tuple(g for g in ("R", "F", "RW") if g in fn["generics"])
             binders = []
@@ -175,7 +196,7 @@ def gen_fb(tr, em):
     pure_cfg = {"struct": st, "pure": True, "record": {"mem": "mem", "read_index": "read_index", "write_index": "write_index"}}
     for nm in ("new", "empty", "filled"):
         em.translate_fn("fixed-buffer/src/lib.rs", nm, nm, pure_cfg, self_like="FixedBuf")
-    cfg = {"struct": st, "monad": "MF"}
+    cfg = {"struct": st, "monad": "MF", "auto_helpers": True}
     names = {"mem": "mem_"}
     order = ["len", "is_empty", "clear", "mem", "readable", "read_bytes", "read_byte", "try_read_byte", "try_read_bytes", "read_all",
              "read_and_copy_bytes", "try_read_exact", "writable", "wrote", "write_bytes", "write_str", "shift", "try_parse", "deframe"]
@@ -196,7 +217,7 @@ def gen_fb(tr, em):
         em.translate_fn("fixed-buffer/src/lib.rs", nm, cn, cfg, trait=trait, self_like="FixedBuf")
     # methods with a reader collaborator
     o.append("Context {RS : Type} (R : Reader RS).\nNotation MW := (M (fb * RS)).\n")
-    wcfg = {"struct": st, "monad": "MW", "lifted": True, "param_types": {"reader": ("reader",), "deframer_fn": ("deframer",)}}
+    wcfg = {"struct": st, "monad": "MW", "lifted": True, "auto_helpers": True, "param_types": {"reader": ("reader",), "deframer_fn": ("deframer",)}}
     em.translate_fn("fixed-buffer/src/lib.rs", "copy_once_from", "copy_once_from", wcfg, self_like="FixedBuf")
     # the model represents Result<Option<&[u8]>, io::Error> by the three-constructor type frame_res; to_fr is that bijection
     em.translate_fn("fixed-buffer/src/lib.rs", "read_frame", "read_frame", dict(wcfg, ret_repr=("to_fr", "frame_res")), self_like="FixedBuf")
